@@ -338,13 +338,22 @@ Proof. vm_compute. repeat split; reflexivity. Qed.
      bytes are dropped (saved 0) and its bytes are S[a, e'): the skip is the exact distance;
    - afterwards the delivery point is e' and the kept bytes are S[A + k, e') when the stream called
      KeepFrom(k) with 0 <= k < available (k as scripted for this call), and nothing otherwise.
-   Missing for C09_stream_statement: that a skipped range (and the range before the first delivery
-   of a stream whose start was never seen) contains no byte that had arrived, and that FlushAll
-   delivers everything received and completes every stream (both need a coverage invariant of the
-   queue w.r.t. the received ranges), and the step from this Prop to the boolean trace_okb. *)
+   - the received ranges R of the stream (rstep, as the oracle's o_recv) are part of the reading: a
+     skipped range [p, a) meets no received range (hits R p a = false) - bytes that had arrived are
+     never passed over -, and the first delivery of a stream whose start was never seen begins at the
+     least received offset (a = min_recv R).  (Invariant: every received byte at or beyond the delivery
+     point is held in the queue, every held byte was received.)
+   - ReassemblyComplete comes only when the data half was ended by FIN/RST or when everything the
+     stream received has been delivered (max_recv R <= delivery point; nothing received at all for a
+     stream whose start was never seen).
+   - after FlushAll no stream is left (every stream that existed got its ReassemblyComplete: the flush
+     loop runs until the data half is closed, its fuel exceeds the queue length).
+   Missing for C09_stream_statement: that FlushWithOptions never closes the data half without
+   completing the stream (gclosed, the silent close, is still allowed by gtrace for it), and the step from this Prop to the
+   boolean trace_okb. *)
 Theorem C09_stream_events : forall S i hs,
   zlen S < 1073741823 -> forallb (hop_okb S) hs = true ->
-  gtrace S (mkCfg 0 0 []) GDead 0 hs (run_hist fullv S i hs).
+  gtrace S (mkCfg 0 0 []) GDead [] 0 hs (run_hist fullv S i hs).
 Proof. exact stream_events. Qed.
 Print Assumptions C09_stream_events.
 
